@@ -79,14 +79,14 @@ Definition rmon_step (c : rl_cfg) (m : rmon) (o : rop) (x : robs) : rmon + Z :=
       if t <? rm_last m then inr CL_CLOCK else
       if ok then
         let d := accept_ok c m p t in
-        if d =? 0 then inl (mkRmon ((p, t) :: rm_acc m) (rm_dd m) (upd (rm_fl m) p (rm_fl m p + 1)) t)
+        if d =? 0 then inl (mkRmon (rm_acc m ++ [(p, t)]) (rm_dd m) (upd (rm_fl m) p (rm_fl m p + 1)) t)
         else inr d
       else inl (mkRmon (rm_acc m) (rm_dd m) (rm_fl m) t)
   | RAcceptDD t, OAcceptDD ok _ =>
       if t <? rm_last m then inr CL_CLOCK else
       if ok then
         if count_if (fresh t) (rm_dd m) + 1 <=? DialDataRPM c
-        then inl (mkRmon (rm_acc m) (t :: rm_dd m) (rm_fl m) t)
+        then inl (mkRmon (rm_acc m) (rm_dd m ++ [t]) (rm_fl m) t)
         else inr CL_DIALDATA
       else inl (mkRmon (rm_acc m) (rm_dd m) (rm_fl m) t)
   | RComplete p, OComplete _ =>
@@ -244,20 +244,20 @@ Definition smon_step (c : rl_cfg) (m : smon) (o : sop) (evs : list sev) : smon +
       let r := sm_r m in
       if t <? rm_last r then inr CL_CLOCK else
       match evs with
-      | [] => inl m
+      | [] => inl (mkSmon (mkRmon (rm_acc r) (rm_dd r) (rm_fl r) t) (sm_fl m))
       | _ =>
         if existsb (is_reject sid) evs
         then inl (mkSmon (mkRmon (rm_acc r) (rm_dd r) (rm_fl r) t) (sm_fl m))
         else
           let d := accept_ok c r p t in
           if negb (d =? 0) then inr d else
-          let r1 := mkRmon ((p, t) :: rm_acc r) (rm_dd r) (upd (rm_fl r) p (rm_fl r p + 1)) t in
+          let r1 := mkRmon (rm_acc r ++ [(p, t)]) (rm_dd r) (upd (rm_fl r) p (rm_fl r p + 1)) t in
           if existsb (is_ask sid) evs then
             if count_if (fresh t) (rm_dd r) + 1 <=? DialDataRPM c
-            then inl (smon_ends (mkSmon (mkRmon (rm_acc r1) (t :: rm_dd r1) (rm_fl r1) t)
-                                        ((sid, p) :: sm_fl m)) evs)
+            then inl (smon_ends (mkSmon (mkRmon (rm_acc r1) (rm_dd r1 ++ [t]) (rm_fl r1) t)
+                                        (sm_fl m ++ [(sid, p)])) evs)
             else inr CL_DIALDATA
-          else inl (smon_ends (mkSmon r1 ((sid, p) :: sm_fl m)) evs)
+          else inl (smon_ends (mkSmon r1 (sm_fl m ++ [(sid, p)])) evs)
       end
   | STimeout t =>
       let r := sm_r m in
